@@ -185,7 +185,7 @@ func main() {
 		freshProcesses(r)
 	}
 	if r.Fork(16) {
-		r.Set("rule", "11 scenarios (every map on the path has >= 2 entries); one execution = spec.Parse + golang.Generate into a fresh directory with a recording UI; every range over a Go map in /repo and in the dependency and every shuffle of the dependency is a choice point; all executions with at most d non-default orders are enumerated (quick: d=1 over all /repo points and the first 3 occurrences of every dependency site; thorough: d=2 over /repo points, d=1 over the first 40 occurrences of every dependency site); states = distinct observations (must be 1 per scenario), transitions = executions")
+		r.Set("rule", "11 scenarios (every map on the path has >= 2 entries); one execution = spec.Parse + golang.Generate into a fresh directory with a recording UI; every range over a Go map in /repo and in the dependency and every shuffle of the dependency is a choice point; all executions with at most d non-default orders are enumerated (quick: d=1 over all /repo points and the first 3 occurrences of every dependency site; thorough: d=2 over /repo points, d=2 with the second deviation at a map range of /repo, d=1 over the first 12 occurrences of every other dependency site; dependency points reached directly from a line of /repo count as /repo points); states = distinct observations (must be 1 per scenario), transitions = executions")
 		r.Set("evaluations", r.Get("executions"))
 		r.Set("transitions", r.Get("executions"))
 		r.Set("traces_validated_against_impl", r.Get("executions"))
@@ -199,7 +199,7 @@ func main() {
 	for si, sc := range scenarios {
 		depOcc := 3
 		if !r.Quick() {
-			depOcc = 40
+			depOcc = 12
 		}
 		var base, baseFull string
 		observations := map[string]bool{}
@@ -224,7 +224,6 @@ func main() {
 		}
 		if !r.Quick() {
 			x.Bound = 2
-			// a second deviation only at /repo points (the filter is consulted per point)
 		}
 		x.Visit = func(choices []int, points []rt.ChoicePoint, obs string) {
 			r.Add("executions", 1)
@@ -261,7 +260,8 @@ func main() {
 			}
 		}
 		x.Shard, x.NShards = shard, nshards
-		x.SecondLevel = func(site string) bool { return inRepo(site) }
+		// a second deviation only at points that lie in /repo itself (map ranges), not at attributed dependency points
+		x.SecondLevel = func(site string) bool { return strings.HasPrefix(site, "internal/") || strings.HasPrefix(site, "cmd/") }
 		x.Explore()
 		if x.Capped {
 			r.Set("exhaustive", false)
